@@ -174,6 +174,9 @@ pub const C07_ROOTS: &[&str] = &[
     "position fen 7k/5K2/8/8/8/8/8/6Q1 b - - 0 1",              // the side to move is mated next move whatever it does
     "position fen 8/8/8/8/8/1k6/8/K6r w - - 0 1",               // lost KRK, in check
     "position fen 7k/8/8/8/8/8/6q1/K7 w - - 0 1",               // lost KQK
+    // capture searches of 10^4 .. 10^5 nodes below the very first root move: the clock is looked at inside them
+    "position fen k7/8/2pppp2/1bqqqqb1/1BQQQQB1/2PPPP2/8/K7 w - - 0 1",
+    "position fen K5N1/p2B2PP/1PPk3r/Pp1P2pb/rP1p2Q1/Bnp1pp2/2pPb1qR/1n1R2N1 w - - 0 1",
     // roots with a preloaded repetition record in which a repetition move exists
     "position fen 8/8/k7/p7/P7/K7/8/8 w - - 0 1 moves a3b3 a6b6 b3a3 b6a6",
     "position fen 7k/8/8/8/8/8/R7/K7 w - - 0 1 moves a2b2 h8g8 b2a2 g8h8 a2b2 h8g8 b2a2 g8h8",
